@@ -2,6 +2,7 @@ package main
 
 import (
 	"fmt"
+	"sort"
 	"os"
 	"time"
 
@@ -70,7 +71,12 @@ func init() {
 		for _, n := range x.C.Nodes {
 			if n != nil {
 				all, _ := n.Node.GetAllValidatorSets()
-				fmt.Printf("node %d: blocks=%d state=%s peersets=%d\n", n.Idx, len(n.App.Commits), n.Node.GetState(), len(all))
+				rs := []string{}
+				for r, ps := range all {
+					rs = append(rs, fmt.Sprintf("%d:%d", r, len(ps)))
+				}
+				sort.Strings(rs)
+				fmt.Printf("node %d: blocks=%d state=%s peersets=%v ffstep=%d stalled=%d\n", n.Idx, len(n.App.Commits), n.Node.GetState(), rs, n.FFStep, n.Stalled)
 			}
 		}
 		fmt.Printf("steps=%d violations=%d digests=%d stats=%+v time=%v\n", x.Steps, len(x.Viol), len(x.Digests), *st, time.Since(t0))
